@@ -1350,7 +1350,9 @@ impl Interp {
 
     async fn finale(&mut self, n_ops: usize) {
         self.settle().await;
-        // nothing stays stalled beyond the generated history
+        // nothing stays stalled beyond the generated history: from here on a stall point lets
+        // its task pass, and everything that is held now is released
+        deltio::verif::set_stall_gate(None);
         self.gate.notify_waiters();
         yields(2).await;
         if self.cfg.horizon {
